@@ -59,7 +59,7 @@ def run(ctx):
     for f, d in dry.items():
         if d["out"] != "returned" or d["counts"].get("forward", 0) != d["want_forward"] or \
                 d["counts"].get("backward", 0) != d["want_backward"]:
-            raise core.Machinery("program table out of date for %s: %s" % (f, d))
+            ctx.suspect("program table out of date for %s: %s" % (f, d))
     chunk = 40
     parts = [allh[k:k + chunk] for k in range(0, len(allh), chunk)]
     shards = len(parts)
